@@ -384,6 +384,20 @@ def worker(path):
     print('\n' + json.dumps(out))
 
 
+
+def _diverse(failures, cap=60):
+    """records of different kinds first (two per kind): a flood of one kind of failure must not hide another kind"""
+    seen, first, rest = {}, [], []
+    for f in failures:
+        if not f:
+            continue
+        c = f.get('case') if isinstance(f.get('case'), dict) else {}
+        k = (f.get('clause'), str(c.get('tag', c.get('part', c.get('formula', ''))))[:60])
+        seen[k] = seen.get(k, 0) + 1
+        (first if seen[k] <= 2 else rest).append(f)
+    return (first + rest)[:cap]
+
+
 def main():
     if len(sys.argv) >= 3 and sys.argv[1] == '--worker':
         worker(sys.argv[2])
@@ -437,7 +451,7 @@ def main():
              '(6 native types, same seed twice with disturbed global state, second seed); %d Integrate cases '
              '(8 closed forms, |a|<=2.2, sigma in [0.6,1.8], tol 1e-6); %d Derive cases (8 closed forms wrt free/fixed '
              'Beta and Variable, tol 1e-9)' % (counts.get('mc', 0), counts.get('seed', 0), counts.get('int', 0), counts.get('der', 0)))
-    print(json.dumps({'cases': done, 'bound': bound, 'failures': failures[:10]}))
+    print(json.dumps({'cases': done, 'bound': bound, 'failures': _diverse(failures)}))
     return 0 if not failures else 1
 
 
